@@ -20,7 +20,7 @@ from simkit.world import digest
 ID = "C54"
 LEVEL = "exploration"
 ENGINE = "simkit/model-world"
-QUICK_RUNS = 40000
+QUICK_RUNS = 30000
 QUICK_BUDGET_S = 120
 THOROUGH_BUDGET_S = 900
 CHUNK = 400
@@ -42,7 +42,9 @@ ASSUMPTIONS = ["a cookie without (valid) Path attribute is given cookie-path '/'
                "a cookie counts as expired only if every valid expiry attribute it carries says so, with 1 s slack; an invalid "
                "Expires / Max-Age value is ignored (RFC 6265 5.2.1/5.2.2)",
                "an expired Set-Cookie removes an earlier cookie only if name, raw Domain attribute (or setting host), port and raw "
-               "Path attribute are identical",
+               "Path attribute are identical, the deleting flow matches the stickycookie filter in force, and the Domain "
+               "attribute is not the empty string (undefined in RFC 6265 5.2.3)",
+               "cookies set while the option is off or by flows the filter does not match may or may not be learned",
                "'an expired cookie is removed from the jar' is read as: a cookie is not attached at a time later than its "
                "expiry time (reported with key when=later), and a Set-Cookie that is already expired deletes (when=at_set)"]
 EXPECTED_PROBES = ["attached_ok", "withheld_domain", "withheld_port", "withheld_path", "withheld_expired",
@@ -77,8 +79,18 @@ def _host(r):
     return r.choice(OTHER_HOSTS)
 
 
-def _cookie(r, n):
-    c = {"name": r.choice(NAMES), "value": f"v{n}", "domain": r.choice(DOMAIN_ATTRS), "path": r.choice(PATH_ATTRS),
+def _cookie(r, n, host):
+    if r.random() < 0.55 and not IPV4.match(host):
+        # a Domain attribute the responding host is entitled to: itself or one of its parents, with / without dot
+        labels = host.lower().split(".")
+        cands = [None, None]
+        for i in range(len(labels) - 1):
+            d = ".".join(labels[i:])
+            cands += [d, "." + d]
+        dom = r.choice(cands)
+    else:
+        dom = r.choice(DOMAIN_ATTRS)
+    c = {"name": r.choice(NAMES), "value": f"v{n}", "domain": dom, "path": r.choice(PATH_ATTRS),
          "expires": None, "max_age": None, "style": r.randrange(4)}
     x = r.random()
     if x < 0.45:
@@ -113,7 +125,8 @@ def generate(rng, tier):
             fid = nflow
             nflow += 1
             port = port0 if r.random() < 0.75 else r.choice(PORTS)
-            rq = {"op": "req", "id": fid, "host": _host(r), "port": port, "path": r.choice(REQ_PATHS),
+            h = r.choice(earlier)[0] if (earlier and r.random() < 0.3) else _host(r)
+            rq = {"op": "req", "id": fid, "host": h, "port": port, "path": r.choice(REQ_PATHS),
                   "method": r.choice(["GET", "GET", "GET", "POST"]), "cookies": []}
             if r.random() < 0.15:
                 rq["cookies"] = [["cli_a", "1"]] if r.random() < 0.7 else [["cli_a", "1"], ["cli_b", "2"]]
@@ -136,7 +149,7 @@ def generate(rng, tier):
                     cookies.append(c)
             else:
                 for _ in range(r.choice([0, 1, 1, 1, 2, 3])):
-                    cookies.append(_cookie(r, ncookie))
+                    cookies.append(_cookie(r, ncookie, rq["host"]))
                     ncookie += 1
             if cookies:
                 earlier.append((rq["host"], rq["port"], cookies))
@@ -472,7 +485,14 @@ def execute(sc):
     _, host, sim_s = HOST.run(_make_addons, body)
     for c in host.crashes:
         bad("addon_crash", {"exc": c[0], "where": c[1]}, f"addon raised: {c[2]}")
-    return {"violations": viol, "digest": digest(log), "nontrivial": st["ok"] > 0 and st["withheld"] > 0, "faults": {},
+    # perturbations that landed in in-flight state: the clock passed the expiry time of a stored cookie, a response
+    # arrived after later requests had been made, the filter changed in mid-history
+    faults = {k: probes[p] for k, p in (("clock_passed_cookie_expiry", "clock_expiry_crossed"),
+                                        ("response_delayed_behind_requests", "delayed_response")) if probes.get(p)}
+    nopt = sum(1 for e in log if e[0] == "opt")
+    if nopt:
+        faults["filter_changed_midway"] = nopt
+    return {"violations": viol, "digest": digest(log), "nontrivial": st["ok"] > 0 and st["withheld"] > 0, "faults": faults,
             "probes": probes, "sim_s": sim_s, "states": set()}
 
 
